@@ -174,6 +174,39 @@ def follower_test(ctx, prog, rule):
            how='entryPos == content || entryPos[-1] == LF')
 
 
+def cli_memory_rules(ctx, prog, cg, root_name, rule):
+    """A9 and H1 of C02, applied to the CLI code the action reaches: buffers are written before they are
+    read, loops make progress (a garbage byte or a hang here ends up in, or in front of, /etc/ld.so.preload)"""
+    from engine.uninit import UninitAnalysis
+    chk = ctx.chk
+    root = prog.require_func(root_name)
+    reach = cg.reachable([root])
+    ua = UninitAnalysis(prog)
+    n = 0
+    for key, (f, _, _) in sorted(reach.items(), key=lambda kv: str(kv[0])):
+        seen = {}
+        for bname, node, bad in ua.analyse(f):
+            i = seen.get(bname, 0)
+            seen[bname] = i + 1
+            n += 1
+            chk.ob(rule, 'written-before-read[%s:%s#%d]' % (f.name, bname, i), bad is None, (bad or node).where(), f.name,
+                   '%s is read by %s before anything has been written to it on some path' % (
+                       bname, render(bad)[:60] if bad is not None else ''),
+                   how='every read use is preceded by a store or a writing callee')
+        stuck = {min(c): conds for c, conds, w in C.stuck_cycles(f)}
+        live = C.reachable_blocks(f)
+        loops = [c for c in C._sccs(f, live) if len(c) > 1 or c[0] in f.blocks[c[0]].succs]
+        for i, comp in enumerate(sorted(loops, key=min)):
+            n += 1
+            hit = stuck.get(min(comp))
+            chk.ob(rule, 'loop-progress[%s#%d]' % (f.name, i), hit is None, f.where(), f.name,
+                   'a loop of %s can go round without changing what its exit condition%s depend%s on (%s)' % (
+                       f.name, '' if hit and len(hit) == 1 else 's', 's' if hit and len(hit) == 1 else '',
+                       '; '.join(render(c)[:50] for c in (hit or []))),
+                   how='every cycle changes a variable of an exit condition')
+    chk.count('cli_memory_obligations', n)
+
+
 def line_start_rule(ctx, prog, rule):
     """In the active-line search: a loop that steps a pointer backwards to find the beginning of the line must
     be able to reach it, i.e. its lower bound is the (never modified) start of the content.  A bound that is
@@ -277,6 +310,8 @@ def run(ctx):
                    'content is copied whole and the entry is appended at or after its end', floor=4)
     chk.rule('Q6', 'own-entry recognition: the entry starts a line and is followed by NUL, newline, "#", space or tab '
                    '(exactly the documented follower set, tested on that single character)', floor=2)
+    chk.rule('Q8', 'in the code enable reaches, buffers are written before they are read and every loop changes something '
+                   'its exit condition depends on', floor=5)
     chk.rule('Q7', 'comment classification reads the first character of the line: the backward search for the line start is '
                    'bounded by the start of the content, not by a cursor that moves with the search', floor=1)
     chk.explanation = (
@@ -336,6 +371,7 @@ def run(ctx):
                'a path reaches the write without the %s test' % label)
     follower_test(ctx, prog, 'Q6')
     line_start_rule(ctx, prog, 'Q7')
+    cli_memory_rules(ctx, prog, cg, ENABLE, 'Q8')
     # ---- Q3 ------------------------------------------------------------------------------------------
     ba = BoundsAnalysis(prog, cg)
     newbuf = decl_of(arg(wc, 0))
